@@ -52,13 +52,24 @@ func genC03(seed uint64, run int, tier string) *Plan {
 		var ops []Op
 		for _, op := range p.Tasks[ti].Ops {
 			ops = append(ops, op)
-			switch r.IntN(18) {
+			switch r.IntN(21) {
+			case 18:
+				// reads that sort, project or collect: they work on copies, never on the stored documents
+				op := Op{K: "find", DB: "db", C: "k", F: jd(bson.D{}), S: jd(pick(r, bson.D{{Key: "n", Value: int32(-1)}}, bson.D{{Key: "by", Value: int32(1)}}, bson.D{{Key: "_id", Value: int32(-1)}}))}
+				if r.IntN(2) == 0 {
+					op.P = jd(pick(r, bson.D{{Key: "o.p", Value: int32(0)}}, bson.D{{Key: "o.q.z", Value: int32(0)}}, bson.D{{Key: "n", Value: int32(1)}}))
+				}
+				ops = append(ops, op)
+			case 19:
+				ops = append(ops, Op{K: "find", DB: "db", C: "k", F: jd(bson.D{{Key: "items", Value: bson.D{{Key: "$exists", Value: true}}}}), P: jd(pick(r, bson.D{{Key: "o.p", Value: int32(0)}}, bson.D{{Key: "o.q", Value: int32(0)}}))})
+			case 20:
+				ops = append(ops, Op{K: "distinct", DB: "db", C: "k", Field: pick(r, "t", "by", "n"), F: jd(pick(r, bson.D{}, bson.D{{Key: "items", Value: bson.D{{Key: "$exists", Value: true}}}}))})
 			case 14:
 				// documents with embedded documents and arrays of documents: snapshots must not share them with later versions
 				id := int32(r.IntN(3))
 				ops = append(ops, Op{K: "replaceOne", DB: "db", C: "k", Upsert: true, F: jd(bson.D{{Key: "_id", Value: id}}), D: jd(bson.D{{Key: "n", Value: int32(0)},
 					{Key: "items", Value: bson.A{bson.D{{Key: "k", Value: int32(1)}, {Key: "v", Value: "x"}}, bson.D{{Key: "k", Value: int32(2)}, {Key: "v", Value: "y"}}}},
-					{Key: "o", Value: bson.D{{Key: "p", Value: int32(1)}, {Key: "q", Value: bson.D{{Key: "z", Value: "deep"}}}}}, {Key: "t", Value: bson.A{int32(1), int32(2)}}})})
+					{Key: "o", Value: bson.D{{Key: "p", Value: int32(1)}, {Key: "q", Value: bson.D{{Key: "z", Value: "deep"}}}}}, {Key: "t", Value: pick(r, bson.A{int32(1), int32(2)}, bson.A{int32(3), int32(1), int32(2)}, bson.A{int32(2), int32(0)})}})})
 			case 15, 16:
 				// updates through arrays and embedded documents
 				u := pick(r,
